@@ -151,6 +151,38 @@ def mutate_residue(residue, new_type, rotamer_index):
     return bb + new + ter
 
 
+def make_ace(residue):
+    """An acetyl cap (ATOM records ACE: CH3, C, O) in front of ``residue``: planar, C bonded to the residue's N at
+    1.33 A making about 120 degrees with CA.  Returns a list of atoms or None."""
+    at = {a.aname: a for a in residue}
+    if "N" not in at or "CA" not in at or "C" not in at:
+        return None
+    n, ca, c = at["N"], at["CA"], at["C"]
+    u = _sub(ca.xyz, n.xyz)
+    w = _cross(u, _sub(c.xyz, ca.xyz))
+    if _dot(w, w) == 0:
+        return None
+    ul = math.sqrt(_dot(u, u))
+    u = tuple(x / ul for x in u)
+    v = _cross(w, u)
+    vl = math.sqrt(_dot(v, v))
+    v = tuple(x / vl for x in v)                       # in the N-CA-C plane, perpendicular to N->CA
+
+    def at_(origin, du, dv, length):
+        return tuple(int(round(origin[i] + length * (du * u[i] + dv * v[i]))) for i in range(3))
+    cpos = at_(n.xyz, -0.5, 0.866, 1330)               # 120 degrees from N->CA
+    opos = at_(cpos, 0.5, 0.866, 1230)
+    mpos = at_(cpos, -1.0, 0.0, 1520)
+    out = []
+    for name, pos in ((" CH3", mpos), (" C  ", cpos), (" O  ", opos)):
+        b = n.copy()
+        b.name, b.x, b.y, b.z = name, pos[0], pos[1], pos[2]
+        b.resn, b.rec, b.alt = "ACE", "ATOM", " "
+        b.resnum, b.icode = n.resnum - 1, " "
+        out.append(b)
+    return out
+
+
 def make_oxt(residue):
     """Construct a terminal oxygen for a residue that has CA, C, O (mirror image of O through the CA->C axis)."""
     at = {a.aname: a for a in residue}
@@ -369,7 +401,7 @@ def base_chains(draw, max_res=40, min_res=2, allow_ball=True, max_atoms=1400, pr
 def structures(draw, max_res=40, min_res=2, allow_ball=True, allow_hetero=True, allow_relabel=True,
                allow_mutation=True, multi_chain=None, max_atoms=1400, distinct_chain_ids=False,
                allow_icode=True, protein=None, always_ter=False, allow_clash=True, allow_truncation=True,
-               ligand_copies=False):
+               ligand_copies=False, allow_caps=True):
     chains, labels, pname = draw(base_chains(max_res=max_res, min_res=min_res, allow_ball=allow_ball,
                                              max_atoms=max_atoms, protein=protein))
     if multi_chain is True and len(chains) < 2:
@@ -529,6 +561,15 @@ def structures(draw, max_res=40, min_res=2, allow_ball=True, allow_hetero=True, 
                         last.append(oxt)
             elif want == "none" and has_oxt:
                 last[:] = [a for a in last if a.aname not in pdbio.TERMINAL_O]
+            first = prot[0]
+            if allow_caps and draw(st.integers(0, 11)) == 0 and first[0].resnum > -999 and \
+                    (first[0].chain, first[0].resnum - 1, " ") not in seen and first[0].icode == " ":
+                cap = make_ace(first)
+                if cap is not None and not any(min_sq_dist(cap, r) < 1500 ** 2 for cc in chains for r in cc
+                                               if r is not first):
+                    c.insert(c.index(first), cap)
+                    seen.add((first[0].chain, first[0].resnum - 1, " "))
+                    labels.append("ace-cap")
             # strip terminal oxygens from the middle of chains that were cut out of a longer one? keep: legitimate
         for r in c:
             entries.extend(r)
